@@ -176,6 +176,14 @@ PNextRLOK(e) ==
 (* iteration converges): the recorded totals are compared with 1 in fixed point                                *)
 TreesumRLOK(e) == \A i \in DOMAIN e.chart : e.chart[i][1] \in NTs(e.G) => WEq(e.sr, One(e.sr), e.chart[i][2])
 
+(* locally_normalize of a proper right-linear grammar (all totals are one): the same rules with the same weights *)
+NormalizeRLOK(e) ==
+  /\ Len(e.out.rules) = Len(e.G.rules)
+  /\ \A i \in DOMAIN e.G.rules :
+        \E j \in DOMAIN e.out.rules :
+           /\ e.out.rules[j].h = e.G.rules[i].h /\ e.out.rules[j].b = e.G.rules[i].b
+           /\ WEq(e.sr, e.G.rules[i].w, e.out.rules[j].w)
+
 InDomainIn(e) ==
   CASE e.op \in {"parse"} -> InsideExact(e.sr, e.G)
     [] e.op \in {"prefix", "treesum", "treesum1", "pnext", "ntw", "lmcall", "explen", "pnextseq", "sample"} ->
@@ -184,6 +192,7 @@ InDomainIn(e) ==
     [] e.op \in {"prefixgrammar", "normalize"} -> InsideExact(e.sr, e.in) /\ TreeSumExact(e.sr, e.in)
     [] e.op = "lang" -> InsideExact(e.sr, e.G)
     [] e.op \in {"pnextrl", "treesumrl"} -> DetRL(e.G) /\ ProperRL(e.sr, e.G)
+    [] e.op = "normalizerl" -> (\A r \in DOMAIN e.G.rules : IsRLRule(e.G, r)) /\ ProperRL(e.sr, e.G)
     [] OTHER -> TRUE
 (* the grammar the CODE produced left the exact domain (a unary / nullable cycle over the rationals): not judged *)
 InDomainOut(e) ==
@@ -217,6 +226,7 @@ Failed(e) ==
                           \cup (IF SampleBoundOK(e) THEN {} ELSE {"maxtokens-conformance"})
     [] e.op = "explen" -> IF ExpLenOK(e) THEN {} ELSE {"explen"}
     [] e.op = "treesumrl" -> IF TreesumRLOK(e) THEN {} ELSE {"treesum"}
+    [] e.op = "normalizerl" -> IF NormalizeRLOK(e) THEN {} ELSE {"normalize"}
     [] e.op = "pnextrl" -> IF PNextRLOK(e) THEN {} ELSE {"longcontext"}
     [] e.op = "pnextseq" -> IF PNextSeqOK(e) THEN {} ELSE {"chainrule"}
     [] e.op = "mapbool" -> IF MapBoolOK(e) THEN {} ELSE {"support"}
